@@ -1,35 +1,64 @@
-"""Summarise /verif/seeded: which seeded change is confirmed and which check run caught it."""
+"""Summarise /verif/seeded as the markdown table of DESIGN.md 11.7: which seeded change is confirmed, which
+check caught it before (eval/) and after (eval2/) the strengthening, and through which violation key."""
 import glob
 import json
 import os
 import re
 
 ROOT = os.path.join(os.path.dirname(os.path.dirname(os.path.abspath(__file__))), "seeded")
-rows = []
-for d in sorted(glob.glob(os.path.join(ROOT, "*"))):
-    if not os.path.isdir(d):
-        continue
-    name = os.path.basename(d)
-    meta = {}
-    try:
-        meta = json.load(open(os.path.join(d, "meta.json")))
-    except Exception:
-        pass
-    conf = {}
-    try:
-        conf = json.load(open(os.path.join(d, "confirm.json")))
-    except Exception:
-        pass
-    evals = []
-    for f in sorted(glob.glob(os.path.join(d, "eval*", "result-*.json"))):
-        try:
-            r = json.load(open(f))
-            evals.append("%s/%s/%s: %s" % (os.path.basename(os.path.dirname(f)), r["check"], r["tier"],
-                                            "CAUGHT" if r["rc"] == 1 and r["violation_lines"] else ("tool-error" if r["rc"] == 2 else "missed")))
-        except Exception:
-            pass
-    title = (meta.get("title") or meta.get("what_it_breaks") or "")[:90]
-    ok = conf and conf.get("demo_unchanged_rc") == 0 and conf.get("demo_changed_rc") not in (0, None) and "690 passed, 3 failed" in conf.get("suite", "")
-    rows.append((name, title, "confirmed" if ok else ("unconfirmed:" + json.dumps(conf)[:80] if conf else "not yet confirmed"), "; ".join(evals)))
-for r in rows:
-    print("| %s | %s | %s | %s |" % r)
+
+
+def verdict(d, sub, check):
+    f = os.path.join(d, sub, "result-%s-quick.json" % check)
+    if not os.path.exists(f):
+        return None, ""
+    r = json.load(open(f))
+    out = os.path.join(d, sub, "check-%s-quick.out" % check)
+    keys = []
+    if os.path.exists(out):
+        for m in re.finditer(r"^violation ([^ ]+?):? ", open(out, errors="replace").read(), re.M):
+            k = re.sub(r"(tmpl\d+|vec-\d+s?|-o\d+|item=\d+|:\d+$)", "", m.group(1))
+            if k not in keys:
+                keys.append(k)
+    if r["rc"] == 1 and r["violation_lines"]:
+        return "caught", ", ".join("`%s`" % k[:70] for k in keys[:2])
+    if r["rc"] in (0,):
+        return "missed", ""
+    return "tool error / interrupted (rc=%s)" % r["rc"], ""
+
+
+def main():
+    print("| seed | what it changes | confirmed | first round (before strengthening) | second round | caught through |")
+    print("|---|---|---|---|---|---|")
+    for d in sorted(glob.glob(os.path.join(ROOT, "*"))):
+        if not os.path.isdir(d):
+            continue
+        name = os.path.basename(d)
+        meta, conf = {}, {}
+        for fn, tgt in (("meta.json", meta), ("confirm.json", conf)):
+            try:
+                tgt.update(json.load(open(os.path.join(d, fn))))
+            except Exception:
+                pass
+        ok = conf and conf.get("applies") == 0 and conf.get("builds") == 0 and conf.get("demo_unchanged_rc") == 0 and \
+            conf.get("demo_changed_rc") not in (0, None) and "690 passed, 3 failed" in conf.get("suite", "")
+        title = (meta.get("title") or "")[:110].replace("|", "/")
+        own = name.split("-")[0]
+        checks = sorted({os.path.basename(f).split("-")[1] for f in glob.glob(os.path.join(d, "eval*", "result-*.json"))},
+                        key=lambda c: (c != own, c))
+        r1, r2, how = [], [], []
+        for c in checks:
+            v1, k1 = verdict(d, "eval", c)
+            v2, k2 = verdict(d, "eval2", c)
+            if v1:
+                r1.append("%s: %s" % (c, v1))
+            if v2:
+                r2.append("%s: %s" % (c, v2))
+            if k2 or k1:
+                how.append("%s %s" % (c, k2 or k1))
+        print("| %s | %s | %s | %s | %s | %s |" % (name, title, "yes" if ok else "NO " + json.dumps(conf)[:60],
+                                                 "; ".join(r1) or "-", "; ".join(r2) or "(not needed)", "; ".join(how)))
+
+
+if __name__ == "__main__":
+    main()
